@@ -1,4 +1,5 @@
 //verif:dir crypto
+//verif:for C14,C39
 package crypto
 
 import (
